@@ -1,6 +1,7 @@
 import PcfgVerif.Properties.DetectCoreA
 import PcfgVerif.Properties.DetectCoreB
 import PcfgVerif.Properties.DetectCoreC
+import PcfgVerif.Lemmas.DetectD2
 /-!
 # C05 — training segments every password into a lossless, soundly typed tiling
 
@@ -108,6 +109,76 @@ theorem C05_keyboard_counter (U : UEnv) (pw : CPs) (hne : pw ≠ []) :
     (detectKeyboardWalk U pw).2 =
       ((detectKeyboardWalk U pw).1.filter (fun s => s.2.isSome)).map (·.1) :=
   detectKeyboardWalk_found U pw hne
+
+/-- **'other' segments contain no letter and no digit**, and the list-level loops really run to their end with the fuel the
+pipeline gives them: after `alpha_detection` no unlabelled section contains a letter, after `digit_detection` none contains a
+digit (so the `D` sections are maximal digit runs of the final tiling, not only of their section), and the strings reported as
+`other` — exactly the sections `other_detection` labels `O<n>` (`C05_other`) — contain neither.  `GoodA U pw`: lower-casing keeps
+the length of every substring of `pw` and changes the alpha-ness of no position (both are per-code-point facts of CPython's
+Unicode tables, validated over all code points on every run). -/
+theorem C05_other_sound (U : UEnv) (cfg : MWCfg) (t : MWTable) (pw : CPs) (hne : pw ≠ [])
+    (hg : GoodA U pw) :
+    ∀ o ∈ (parse U cfg t pw).others, (∀ c ∈ o, U.isAlpha c = false) ∧ (∀ c ∈ o, U.isDigit c = false) := by
+  have hl := hg.1
+  let s0 := (detectKeyboardWalk U pw).1
+  let s1 := (splitLoop (detectEmail U) .skipFirst (loopFuel s0) [] s0 []).1
+  let s2 := (splitLoop (detectWebsite U) .skipFirst (loopFuel s1) [] s1 []).1
+  let s3 := (splitLoop (detectYear U) .recheck (loopFuel s2) [] s2 []).1
+  let s4 := (splitLoop (detectContext U) .recheck (loopFuel s3) [] s3 []).1
+  let s5 := (splitLoop (detectAlpha U cfg t) .skipFirst (loopFuel s4) [] s4 []).1
+  let s6 := (splitLoop (detectDigits U) .skipFirst (loopFuel s5) [] s5 []).1
+  have h0 : TilesFrom U pw 0 s0 := (detectKeyboardWalk_tiles U pw hne).1
+  have h1 : TilesFrom U pw 0 s1 := stage_tiles U pw hl _ _ (detectEmail_ok U) s0 h0
+  have h2 : TilesFrom U pw 0 s2 := stage_tiles U pw hl _ _ (detectWebsite_ok U) s1 h1
+  have h3 : TilesFrom U pw 0 s3 := stage_tiles U pw hl _ _ (detectYear_ok U) s2 h2
+  have h4 : TilesFrom U pw 0 s4 := stage_tiles U pw hl _ _ (detectContext_ok U) s3 h3
+  have hgood : ∀ s ∈ s4, s.2 = none → GoodA U s.1 := by
+    intro s hs hn
+    obtain ⟨a, b, hab⟩ := tilesFrom_unlabelled_slice U pw s4 0 h4 s hs hn
+    rw [hab]
+    exact goodA_slice U pw a b hg
+  have h5 : ∀ s ∈ s5, s.2 = none → NoAlpha U s.1 :=
+    splitLoop_exhaustive (detectAlpha U cfg t) (GoodA U) (NoAlpha U) (detectAlpha_exhausts U cfg t) (loopFuel s4) [] s4 []
+      (secMeasure_le_loopFuel s4) hgood (by simp)
+  have h6a : ∀ s ∈ s6, s.2 = none → NoAlpha U s.1 := by
+    apply splitLoop_preserves (detectDigits U) .skipFirst (NoAlpha U) _ (loopFuel s5) [] s5 []
+    · simpa using h5
+    · intro text pieces d hq hd p hp hn c hc
+      exact hq c (detectDigits_pieces_sub U text pieces d hd p hp hn c hc)
+  have h6d : ∀ s ∈ s6, s.2 = none → NoDigit U s.1 := digitStage_exhaustive U s5
+  intro o ho
+  have hoth : (parse U cfg t pw).others = (otherDetection s6).2 := rfl
+  rw [hoth] at ho
+  unfold otherDetection at ho
+  simp only [List.mem_filterMap] at ho
+  obtain ⟨s, hs, hso⟩ := ho
+  obtain ⟨text, l⟩ := s
+  cases l with
+  | some _ => simp at hso
+  | none =>
+    simp at hso
+    subst hso
+    exact ⟨h6a _ hs rfl, h6d _ hs rfl⟩
+
+
+/-- non-vacuity: the ASCII environment satisfies `GoodA` for every password (so `C05_other_sound` applies to it), and on
+`12PassWord!x9` the reported `other` strings are `!` only -/
+theorem goodA_ascii (pw : CPs) : GoodA asciiC pw := by
+  refine ⟨asciiC_lenPres pw, ?_⟩
+  intro c d i
+  simp only [asciiC, List.getElem?_map, Option.map_map]
+  cases (slice pw c d)[i]? with
+  | none => rfl
+  | some x =>
+    simp only [Option.map_some, Function.comp_apply, Option.some.injEq]
+    by_cases hx : 65 ≤ x ∧ x ≤ 90
+    · simp only [hx, and_self, if_true]
+      have h1 : (65 ≤ x ∧ x ≤ 90) ∨ (97 ≤ x ∧ x ≤ 122) := Or.inl hx
+      have h2 : (65 ≤ x + 32 ∧ x + 32 ≤ 90) ∨ (97 ≤ x + 32 ∧ x + 32 ≤ 122) := Or.inr (by omega)
+      rw [decide_eq_true h2]; simp
+    · simp only [hx, if_false]
+
+example : (parse asciiC {} exTable (cpsOfString "12PassWord!x9")).others = [cpsOfString "!"] := by decide +kernel
 
 /-- table facts the detectors rely on -/
 theorem C05_tables : Generated.Tables.minKeyboardRun = 4 ∧
